@@ -160,17 +160,24 @@ Theorem C18_extrude_spec :
 Proof. exact extrude_t_spec. Qed.
 Print Assumptions C18_extrude_spec.
 
-(* split_spec, facet carry-over of to_meshtri: the code scans ONE shared iterator over the new facet table for all
-   tagged facets of a name.  For strictly lexicographically sorted facet tables and any duplicate-free tag all of
-   whose facets are still facets of the triangle mesh, the scan never runs dry (no StopIteration) and the j-th number
-   returned designates the new facet with the same vertex pair as the j-th smallest tagged facet *)
+(* split_spec, facet carry-over of to_meshtri (independent lookup by np.searchsorted on the keys v0 * nv + v1): for a
+   strictly lexicographically sorted table NF of vertex pairs below nv and ANY tag — any order, repeated entries allowed —
+   all of whose facets are still facets of the triangle mesh, nothing is dropped and the j-th number returned designates
+   the new facet with the same vertex pair as the j-th smallest tagged facet; for an oriented tag the new flag selects,
+   of the two triangles at the new facet, the one that is a child of the tagged quadrilateral c (k mod nt = c) *)
 Theorem C18_to_meshtri_boundaries :
-  forall (OF NF : mat nat) (b : list nat),
-    StronglySorted lex_lt OF -> StronglySorted lex_lt NF -> NoDup b -> Forall (fun k => k < length OF) b ->
-    (forall k, In k b -> In (nth k OF []) NF) ->
-    exists idx, gen_carry_boundary OF NF b = Some idx /\ length idx = length b /\
-                forall j, j < length b -> nth (nth j idx 0) NF [] = nth (nth j (sort_nat b) 0) OF [].
-Proof. intros OF NF b. rewrite gen_carry_boundary_is_model. exact (carry_boundary_spec OF NF b). Qed.
+  (forall (nv : nat) (OF NF : mat nat) (ixs : list nat),
+     StronglySorted lex_lt NF -> Forall (pair_ok nv) NF -> (forall k, In k ixs -> In (nth k OF []) NF) ->
+     length (gen_carry_boundary nv OF NF ixs) = length ixs /\
+     forall j, j < length ixs ->
+       nth (nth j (gen_carry_boundary nv OF NF ixs) 0) NF [] = nth (nth j (sort_nat ixs) 0) OF []) /\
+  (forall (nt : nat) (f2t0' f2t1' : list nat) (g : nat) (c : Z),
+     (Z.of_nat (nth g f2t0' 0 mod nt) = c \/ Z.of_nat (nth g f2t1' 0 mod nt) = c) ->
+     Z.of_nat (nth g (if lookup_flag nt f2t0' g c then f2t1' else f2t0') 0 mod nt) = c).
+Proof.
+  split; [|exact lookup_flag_spec].
+  intros nv OF NF ixs. rewrite gen_carry_boundary_is_model. exact (lookup_boundary_spec nv OF NF ixs).
+Qed.
 Print Assumptions C18_to_meshtri_boundaries.
 
 (* join_spec / remove_duplicate_nodes (vertices as coordinate tuples, after the code's rounding): the merged point
